@@ -529,7 +529,9 @@ def explore(unit: str, run: Callable[[Ctx], None], region=None, work=None, split
         try:
             run(ctx)
             res.paths += 1
-        except PathEnd:
+        except PathEnd as _pe:
+            if trace:
+                print(f"   [cut: {_pe}]", flush=True)
             if any(o.status != "unsat" for o in ctx.obligations):
                 # cut by assuming an obligation that failed: the path itself was feasible
                 res.paths += 1
